@@ -318,3 +318,13 @@ def run_py(script_args, env=None, timeout=120, cwd=None, hooks=False, input=None
     """Run a fresh interpreter against /repo."""
     return subprocess.run([PY] + list(script_args), env=child_env(env, hooks=hooks), cwd=cwd,
                           capture_output=True, text=True, timeout=timeout, input=input)
+
+
+def tmap(fn, items, threads=8):
+    """Parallel map over threads (for work that spawns its own child interpreters)."""
+    from concurrent.futures import ThreadPoolExecutor
+
+    if threads <= 1 or len(items) < 2:
+        return [fn(x) for x in items]
+    with ThreadPoolExecutor(max_workers=threads) as ex:
+        return list(ex.map(fn, items))
